@@ -185,13 +185,14 @@ def brun (C : Contract) : List FOp → List BVal → Option (List BVal)
       brun C ops (e ++ [v])
 
 /-- every leaf call stays inside its proved precondition when the inputs are within `pre` (elements; `none` = a
-predicate input), and every output element is within `post` -/
-def bcheck (C : Contract) (prog : List FOp) (outs : List Nat) (pre : List (Option Bnd)) (post : Bnd) : Bool :=
+predicate input), and every output element is within its entry of `post` -/
+def bcheck (C : Contract) (prog : List FOp) (outs : List Nat) (pre : List (Option Bnd)) (post : List (Option Bnd)) : Bool :=
   match brun C prog (pre.map fun | some b => .fe b | none => .bool) with
   | none => false
-  | some e => outs.all fun i =>
-      match e.getD i .bool with
-      | .fe b => b.le post
-      | .bool => true
+  | some e => outs.length == post.length && (outs.zip post).all fun (i, q) =>
+      match e.getD i .bool, q with
+      | .fe b, some q => b.le q
+      | .bool, none => true
+      | _, _ => false
 
 end Voi.FIR
